@@ -3,6 +3,8 @@ package main
 // SSA -> SMT verification-condition generator (DESIGN.md section 1.3).
 
 import (
+	"os"
+	"regexp"
 	"fmt"
 	"go/token"
 	"go/types"
@@ -39,6 +41,7 @@ type Assump struct {
 	seq  int
 	term string
 	why  string
+	blk  int // block of the root function the assumption was made in (-1: none / applies everywhere)
 }
 
 type Oblig struct {
@@ -52,6 +55,7 @@ type Oblig struct {
 	Clause string // source text of the clause if any
 	Label  string
 	extra  []string
+	blk    int // block of the root function (-1: after the merge of all returns)
 }
 
 type KeyInfo struct {
@@ -92,6 +96,14 @@ type Gen struct {
 	allocKinds map[string]bool
 	ordinals map[string]int
 	obNames  map[string]int
+	curBlk   int                  // index of the root function's block being generated (-1 outside)
+	rootReach map[int]map[int]bool // forward reachability between blocks of the root function (back edges cut)
+	loopAllBut map[string]map[string]bool // loop id -> everything is modified except these keys
+	wreach   map[*ssa.Function]bool // functions that can reach a writer of the root's private keys (private.go)
+	macros   map[string]string // array-valued define-funs: name -> sort
+	atoms    map[string]string // macro name -> constant equal to it (for patterns)
+	msgUni   []types.Type      // message types mentioned by the package under verification (msgmodel.go)
+	constVal map[ssa.Value]Val // write-once local variable cells (see constcell.go): their content as a value
 }
 
 func (g *Gen) note(s string) { g.notes[s] = true }
@@ -119,7 +131,38 @@ func (g *Gen) def(prefix, sort, term string) string {
 		return name
 	}
 	g.emit(fmt.Sprintf("(define-fun %s () %s %s)", name, sort, term))
+	if strings.HasPrefix(sort, "(Array") {
+		if g.macros == nil {
+			g.macros = map[string]string{}
+		}
+		g.macros[name] = sort
+	}
 	return name
+}
+
+var macroNameRe = regexp.MustCompile(`\|[^|]*\|`)
+
+// atomize replaces array-valued macros (state versions built from store/ite terms) in a quantifier pattern by
+// constants equal to them: patterns must not contain ite / boolean structure.
+func (g *Gen) atomize(t string) string {
+	return macroNameRe.ReplaceAllStringFunc(t, func(n string) string {
+		srt, ok := g.macros[n]
+		if !ok {
+			return n
+		}
+		if a, ok := g.atoms[n]; ok {
+			return a
+		}
+		if g.atoms == nil {
+			g.atoms = map[string]string{}
+		}
+		g.n++
+		a := fmt.Sprintf("|at.%s!%d|", strings.Trim(n, "|"), g.n)
+		g.emit(fmt.Sprintf("(declare-const %s %s)", a, srt))
+		g.emit(fmt.Sprintf("(assert (= %s %s))", a, n))
+		g.atoms[n] = a
+		return a
+	})
 }
 
 func (g *Gen) declareFun(name, sig string) {
@@ -128,6 +171,21 @@ func (g *Gen) declareFun(name, sig string) {
 	}
 	g.declared[name] = true
 	g.emit(fmt.Sprintf("(declare-fun %s %s)", name, sig))
+}
+
+// cardFn declares the cardinality function of finite key sets (len of a Go map) with the three facts used about
+// it: it is non-negative, a set with a member has at least one element, and a one-element set has one member.
+func (g *Gen) cardFn(ks string) string {
+	fn := "|card!" + sanitize(ks) + "|"
+	if g.declared[fn] {
+		return fn
+	}
+	g.declareFun(fn, "((Array "+ks+" Bool)) Int")
+	S := "(Array " + ks + " Bool)"
+	g.emit(fmt.Sprintf("(assert (forall ((S %s)) (! (<= 0 (%s S)) :pattern ((%s S)))))", S, fn, fn))
+	g.emit(fmt.Sprintf("(assert (forall ((S %s) (k %s)) (! (=> (select S k) (<= 1 (%s S))) :pattern ((%s S) (select S k)))))", S, ks, fn, fn))
+	g.emit(fmt.Sprintf("(assert (forall ((S %s) (k1 %s) (k2 %s)) (! (=> (and (select S k1) (select S k2) (= (%s S) 1)) (= k1 k2)) :pattern ((%s S) (select S k1) (select S k2)))))", S, ks, ks, fn, fn))
+	return fn
 }
 
 func (g *Gen) sortOf(t types.Type) string { return g.sorts.sortOf(t) }
@@ -151,7 +209,7 @@ func (g *Gen) regKeyT(k, sort, kind string, valT types.Type) {
 	g.regKey(k, sort, kind)
 	ki := g.keys[k]
 	ki.ref = refKind(valT)
-	ki.valT = types.TypeString(valT, nil)
+	ki.valT = types.TypeString(unaliasDeep(valT), nil)
 	g.keys[k] = ki
 }
 
@@ -159,7 +217,7 @@ func (g *Gen) regKeyT(k, sort, kind string, valT types.Type) {
 // (by the code itself or by a callee whose contract says so): only for such reference types can a
 // fresh reference be confused with a stored one, so only they need the closed-heap bound.
 func (g *Gen) markAlloc(t types.Type) {
-	g.allocKinds[types.TypeString(t, nil)] = true
+	g.allocKinds[types.TypeString(unaliasDeep(t), nil)] = true
 }
 
 // heapBound: closed-heap invariant for a fresh version `term` of heap key k: every reference stored
@@ -172,6 +230,7 @@ func (g *Gen) heapBound(k, term, alloc string) {
 	if g.pass != 1 && !g.allocKinds[ki.valT] {
 		return
 	}
+	term = g.atomize(term)
 	sel := func(x string) string {
 		if ki.ref == "slice" {
 			return "(sarr " + x + ")"
@@ -183,7 +242,7 @@ func (g *Gen) heapBound(k, term, alloc string) {
 		g.assumeRaw(fmt.Sprintf("(forall ((|o| Int)) (! (<= %s %s) :pattern ((select %s |o|))))", sel(fmt.Sprintf("(select %s |o|)", term)), alloc, term))
 	case "arr":
 		g.assumeRaw(fmt.Sprintf("(forall ((|o| Int) (|i| Int)) (! (<= %s %s) :pattern ((select (select %s |o|) |i|))))", sel(fmt.Sprintf("(select (select %s |o|) |i|)", term)), alloc, term))
-	case "mval":
+	case "mval", "umap":
 		ks := ki.sort[len("(Array Int (Array "):]
 		ks = firstSort(ks)
 		g.assumeRaw(fmt.Sprintf("(forall ((|o| Int) (|k| %s)) (! (<= %s %s) :pattern ((select (select %s |o|) |k|))))", ks, sel(fmt.Sprintf("(select (select %s |o|) |k|)", term)), alloc, term))
@@ -305,17 +364,41 @@ func (g *Gen) havocKey(s *State, k string, why string) {
 	}
 }
 
-func (g *Gen) havocAll(s *State, why string) {
+func (g *Gen) havocAll(s *State, why string) { g.havocAllExcept(s, why, nil) }
+
+// havocAllExcept: everything but the keys in skip is arbitrary afterwards.  Enclosing loops are marked as
+// modifying everything except what the root function declares private (g.privSkip).
+func (g *Gen) havocAllExcept(s *State, why string, skip map[string]bool) {
 	old := g.get(s, "$alloc")
 	for _, k := range g.keyOrder {
 		ki := g.keys[k]
-		if ki.kind == "visited" || ki.kind == "stable" || ki.kind == "lockstate" {
+		if ki.kind == "visited" || ki.kind == "stable" || ki.kind == "lockstate" || skip[k] {
 			continue
 		}
 		g.havocKey(s, k, why)
 	}
 	for _, l := range g.curLoops {
-		g.loopAll[l] = true
+		if len(skip) == 0 {
+			g.loopAll[l] = true
+		} else {
+			// everything except the skipped keys: record the keys one by one (done by havocKey -> set) and
+			// remember that keys discovered later are modified too
+			if g.loopAllBut == nil {
+				g.loopAllBut = map[string]map[string]bool{}
+			}
+			if g.loopAllBut[l] == nil {
+				g.loopAllBut[l] = skip
+			} else {
+				// intersection of the skip sets
+				n := map[string]bool{}
+				for k := range g.loopAllBut[l] {
+					if skip[k] {
+						n[k] = true
+					}
+				}
+				g.loopAllBut[l] = n
+			}
+		}
 	}
 	// allocation counter only grows
 	g.assumeRaw(fmt.Sprintf("(<= %s %s)", old, g.get(s, "$alloc")))
@@ -328,7 +411,7 @@ func (g *Gen) havocAll(s *State, why string) {
 
 func (g *Gen) assumeRaw(term string) {
 	g.seq++
-	g.assumps = append(g.assumps, Assump{g.seq, term, ""})
+	g.assumps = append(g.assumps, Assump{g.seq, term, "", g.curBlk})
 }
 
 // mergeStates builds the ite-merge of predecessor states.
@@ -439,6 +522,7 @@ type retRec struct {
 	reach   string
 	state   *State
 	results []Val
+	blk     int
 }
 
 type FnCtx struct {
@@ -476,6 +560,9 @@ type FnCtx struct {
 	funcVals []funcVal
 	privCells  []privCell
 	privDone   bool
+	privKeys     map[string]bool
+	privKeysDone bool
+	assertDone   bool
 	debugNames map[string]Val
 	synthN   int
 	rangeN   int
@@ -500,7 +587,7 @@ func (fc *FnCtx) name(v ssa.Value) string {
 func (fc *FnCtx) assume(term string, why string) {
 	g := fc.g
 	g.seq++
-	g.assumps = append(g.assumps, Assump{g.seq, fmt.Sprintf("(=> %s %s)", fc.curReach, term), why})
+	g.assumps = append(g.assumps, Assump{g.seq, fmt.Sprintf("(=> %s %s)", fc.curReach, term), why, g.curBlk})
 }
 
 func (fc *FnCtx) oblige(kind, detail string, pos token.Pos, goal string, clause string, label string) *Oblig {
@@ -527,7 +614,7 @@ func (fc *FnCtx) oblige(kind, detail string, pos token.Pos, goal string, clause 
 	} else {
 		g.obNames[name] = 1
 	}
-	o := &Oblig{Name: name, Kind: kind, Func: fnName, Pos: p, seq: g.seq, reach: fc.curReach, goal: goal, Clause: clause, Label: label}
+	o := &Oblig{Name: name, Kind: kind, Func: fnName, Pos: p, seq: g.seq, reach: fc.curReach, goal: goal, Clause: clause, Label: label, blk: g.curBlk}
 	g.obligs = append(g.obligs, o)
 	return o
 }
@@ -620,6 +707,7 @@ func (fc *FnCtx) loopID(h *ssa.BasicBlock) string {
 }
 
 type privCell struct {
+	v   ssa.Value
 	ref string
 	T   types.Type
 }
@@ -686,12 +774,26 @@ func (fc *FnCtx) privateCells() []privCell {
 		case *types.Struct, *types.Array:
 			return
 		}
-		if val, ok := fc.vals[v]; ok {
-			fc.privCells = append(fc.privCells, privCell{ref: val.t, T: pt.Elem()})
-		}
+		fc.privCells = append(fc.privCells, privCell{v: v, T: pt.Elem()})
 	}
 	for _, fv := range fc.fn.FreeVars {
 		add(fv)
+	}
+	// local variables that live in memory because a closure captures them: private as long as the capturing
+	// closures are only handed to callees whose bodies the generator sees (inlined contracts, retry.Do, Once.Do,
+	// sort.Slice, Range) or are called / deferred directly
+	for _, b := range fc.fn.Blocks {
+		for _, ins := range b.Instrs {
+			al, ok := ins.(*ssa.Alloc)
+			if !ok || escapes[al] {
+				continue
+			}
+			if fc.g.cellStaysLocal(al, 0) {
+				add(al)
+			} else if os.Getenv("GOVC_DEBUG") != "" {
+				fmt.Fprintf(os.Stderr, "cell %s (%s) does not stay local\n", al.Name(), al.Comment)
+			}
+		}
 	}
 	return fc.privCells
 }
@@ -701,6 +803,11 @@ func (fc *FnCtx) restorePrivate(before *State) {
 	g := fc.g
 	for c := fc; c != nil; c = c.parent {
 		for _, pc := range c.privateCells() {
+			val, ok := c.vals[pc.v]
+			if !ok {
+				continue // not allocated yet on this path
+			}
+			pc.ref = val.t
 			k := g.cellKey(pc.T)
 			if g.get(before, k) == g.get(fc.cur, k) {
 				continue
@@ -708,4 +815,77 @@ func (fc *FnCtx) restorePrivate(before *State) {
 			fc.cur.m[k] = g.def("st."+k, g.keys[k].sort, fmt.Sprintf("(store %s %s (select %s %s))", g.get(fc.cur, k), pc.ref, g.get(before, k), pc.ref))
 		}
 	}
+}
+
+// cellStaysLocal: every use of the cell address v is a load, a store into it, or a capture by a closure that is
+// itself only called directly, deferred, or passed to a callee whose body is analysed at the call site.
+func (g *Gen) cellStaysLocal(v ssa.Value, depth int) bool {
+	if depth > 4 {
+		return false
+	}
+	refs := v.Referrers()
+	if refs == nil {
+		return true
+	}
+	for _, r := range *refs {
+		switch x := r.(type) {
+		case *ssa.UnOp:
+			if x.X != v {
+				return false
+			}
+		case *ssa.Store:
+			if x.Addr != v || x.Val == v {
+				return false
+			}
+		case *ssa.DebugRef:
+		case *ssa.MakeClosure:
+			fn, ok := x.Fn.(*ssa.Function)
+			if !ok {
+				return false
+			}
+			for i, b := range x.Bindings {
+				if b == v && (i >= len(fn.FreeVars) || !g.cellStaysLocal(fn.FreeVars[i], depth+1)) {
+					return false
+				}
+			}
+			if !g.closureStaysLocal(x) {
+				return false
+			}
+		default:
+			return false
+		}
+	}
+	return true
+}
+
+func (g *Gen) closureStaysLocal(mc *ssa.MakeClosure) bool {
+	refs := mc.Referrers()
+	if refs == nil {
+		return true
+	}
+	for _, r := range *refs {
+		switch x := r.(type) {
+		case *ssa.DebugRef:
+		case *ssa.Call, *ssa.Defer:
+			cc := callCommonOf(x)
+			if cc.Value == ssa.Value(mc) {
+				continue // called or deferred directly
+			}
+			sc := cc.StaticCallee()
+			if sc == nil {
+				return false
+			}
+			switch sc.String() {
+			case "github.com/milvus-io/milvus/pkg/util/retry.Do", "(*sync.Once).Do", "sort.Slice", "sort.SliceStable":
+				continue
+			}
+			if c := g.findContract(sc); c != nil && c.Inline && sc.Blocks != nil {
+				continue
+			}
+			return false
+		default:
+			return false
+		}
+	}
+	return true
 }
